@@ -152,6 +152,8 @@ class ExprMixin:
                     del self._guards[len(self._guards) - len(guards):]
                 t = self.truth(v)
                 vals.append(t)
+                if isinstance(t, bool) and t == (not is_and):
+                    break                      # decided concretely: later operands are not evaluated (short circuit)
                 guards.append(t if is_and else self.lnot(t))
             return self.land(*vals) if is_and else self.lor(*vals)
         # path mode: python semantics (value of the deciding operand, short circuit)
